@@ -287,6 +287,11 @@ func applyOps(t *byteTable, b *msBeh) *applied {
 		default:
 			fatal("unknown op %q", op.Op)
 		}
+		// encoders are asked at any time, also between two changes of a message: what they say later is about the message as it is then
+		if op.I >= 1 && op.I <= len(a.msgs) && (k+len(b.Ops))%2 == 0 {
+			_, _ = a.msgs[op.I-1].MarshalText()
+			_ = a.msgs[op.I-1].String()
+		}
 	}
 	return a
 }
